@@ -3,6 +3,7 @@ package main
 import (
 	"bufio"
 	"bytes"
+	"crypto/sha256"
 	"encoding/hex"
 	"encoding/json"
 	"fmt"
@@ -1008,6 +1009,36 @@ func init() {
 				if k%16 == 5 {
 					lb, _ := refcodec.EncodeList([]*refcodec.Tx{t, t}, []bool{false, true}, nil)
 					feedKind("list", lb, "valid", uint64(k), 0)
+				}
+			}
+		}
+
+		// ------------------------------------------------------------ honest lists whose transactions spend each other
+		c.Phase("chained-lists") // a list in which later transactions spend outputs of earlier ones (real txids), the spent output carrying a large script and many inputs referring to it: allocation stays proportional to the input
+		{
+			n := uint64(0)
+			for _, scriptLen := range []int{100, 4096, 65536} {
+				for _, refs := range []int{1, 50, 800} {
+					for _, ext := range []bool{false, true} {
+						n++
+						if !c.Case(n) {
+							continue
+						}
+						script := make([]byte, scriptLen)
+						for i := range script {
+							script[i] = byte(i*13 + i>>9)
+						}
+						parent := &refcodec.Tx{Version: 1, Ins: []refcodec.In{{PrevHash: bytes.Repeat([]byte{7}, 32), Script: []byte{0x51}, Seq: 0xffffffff, PrevScript: []byte{0x51}}},
+							Outs: []refcodec.Out{{Sats: 5000, Script: script}, {Sats: 1, Script: []byte{0x51}}}}
+						h1 := sha256.Sum256(refcodec.Encode(parent, false, nil))
+						h2 := sha256.Sum256(h1[:])
+						child := &refcodec.Tx{Version: 1, Outs: []refcodec.Out{{Sats: 1, Script: []byte{0x51}}}}
+						for i := 0; i < refs; i++ {
+							child.Ins = append(child.Ins, refcodec.In{PrevHash: append([]byte{}, h2[:]...), Vout: uint32(i % 2), Script: []byte{0x51}, Seq: uint32(i), PrevSats: 5000, PrevScript: []byte{0x52}})
+						}
+						lb, _ := refcodec.EncodeList([]*refcodec.Tx{parent, child, child}, []bool{ext, ext, !ext}, nil)
+						feedKind("list", lb, "valid", n, 0)
+					}
 				}
 			}
 		}
